@@ -13,7 +13,7 @@ From AV.Model Require Import Base Bytes Vec Ops Interp.
 From AV.Spec Require Import VecSpec.
 From AV.Proofs Require Import OwnProofs.
 From WIP Require Import WorldSpec.
-From WIP Require WorldProofs.
+From WIP Require WorldProofs WorldFused.
 Open Scope N_scope.
 
 Definition slot_xs (o : option avec) : list N := match o with Some a => a_xs a | None => [] end.
@@ -231,6 +231,34 @@ Proof.
 Qed.
 
 (** ** One step preserves the accounting *)
+
+(** ** steps with an armed fuse: what a panicking destructor leaks *)
+Definition take_drop_leak (c : cfg) (st : astate) (v : nat) (tk : tkind) (idx : N) (k : N) : list N :=
+  match get_a v st with
+  | Some a =>
+      let xs := a_xs a in
+      let i := match tk with TPop => (length xs - 1)%nat | _ => N.to_nat idx end in
+      let exists_ := match tk with TPop => negb (length xs =? 0)%nat | _ => idx <? N.of_nat (length xs) end in
+      if c_dg c && (k =? 0) && exists_ then skipn (S i) xs else []
+  | None => []
+  end.
+Definition leak_of_f (c : cfg) (st : astate) (nx : N) (fuse : option N) (o : op) : list N :=
+  match fuse with
+  | None => leak_of c st nx o
+  | Some k =>
+      match o with
+      | OClear _ v =>
+          match get_a v st with
+          | Some a => if c_dg c && (k <? N.of_nat (length (a_xs a))) then skipn (S (N.to_nat k)) (a_xs a) else []
+          | None => []
+          end
+      | OPop _ v KDrop => take_drop_leak c st v TPop 0 k
+      | ORemove _ v idx KDrop => take_drop_leak c st v TRemove idx k
+      | OSwapRemove _ v idx KDrop => take_drop_leak c st v TSwapRemove idx k
+      | _ => []
+      end
+  end.
+
 Section StepOwn.
 Variable c : cfg.
 Hypothesis Hdg : c_dg c = true.
@@ -809,6 +837,72 @@ Proof.
   - (* OSwap *)
     destruct (pr =? 0); [|discriminate]. exact (swap_own st nx v1 i v2 j r D L Hr Hinv).
 Qed.
+
+Lemma take_drop_own_f st nx v tk idx k r D L :
+  (tk = TPop -> idx = 0) -> 1 <= nx ->
+  sp_take_drop_f c st nx v tk idx k = Some r ->
+  Permutation (created c nx) (vis st ++ D ++ L) ->
+  Permutation (created c (s_nx r)) (vis (s_st r) ++ (D ++ drops (s_evs r)) ++ (L ++ take_drop_leak c st v tk idx k)).
+Proof.
+  intros Hpop Hnx Hr Hinv. unfold sp_take_drop_f in Hr. unfold take_drop_leak.
+  destruct (sp_take c st nx v tk idx KDrop) as [r0|] eqn:E0; [|discriminate].
+  pose proof (take_own st nx v tk idx KDrop r0 D L Hpop Hnx E0 Hinv) as H0.
+  destruct (get_a v st) as [a|] eqn:Hg; [|unfold sp_take in E0; rewrite Hg in E0; discriminate].
+  set (xs := a_xs a) in *. cbv zeta.
+  assert (Hl0 : match tk with
+                | TPop => if (length xs =? 0)%nat then [] else sink_leak c nx xs (length xs - 1) KDrop
+                | _ => if idx <? N.of_nat (length xs) then sink_leak c nx xs (N.to_nat idx) KDrop else []
+                end = []).
+  { destruct tk; cbn [sink_leak]; repeat match goal with |- context [if ?x then _ else _] => destruct x end; reflexivity. }
+  rewrite Hl0 in H0.
+  (* does the element exist? then s_out r0 = 0 *)
+  unfold sp_take in E0. rewrite Hg in E0. fold xs in E0. cbv zeta in E0.
+  set (i := match tk with TPop => (length xs - 1)%nat | _ => N.to_nat idx end) in *.
+  set (ex := match tk with TPop => negb (length xs =? 0)%nat | _ => idx <? N.of_nat (length xs) end).
+  assert (Hex : (s_out r0 =? 0) = ex /\ (ex = true -> (i < length xs)%nat)).
+  { unfold ex, i. destruct tk.
+    - destruct (Nat.eqb_spec (length xs) 0) as [Hz|Hnz]; cbn [negb].
+      + injection E0 as <-. split; [reflexivity|discriminate].
+      + cbn [sp_sink] in E0. unfold sp_take_elem in E0. cbv zeta in E0. injection E0 as <-. split; [reflexivity|lia].
+    - destruct (N.ltb_spec idx (N.of_nat (length xs))) as [Hlt|Hge].
+      + cbn [sp_sink] in E0. unfold sp_take_elem in E0. cbv zeta in E0. injection E0 as <-. split; [reflexivity|lia].
+      + injection E0 as <-. split; [reflexivity|discriminate].
+    - destruct (N.ltb_spec idx (N.of_nat (length xs))) as [Hlt|Hge].
+      + cbn [sp_sink] in E0. unfold sp_take_elem in E0. cbv zeta in E0. injection E0 as <-. split; [reflexivity|lia].
+      + injection E0 as <-. split; [reflexivity|discriminate]. }
+  destruct Hex as [Hex1 Hex2]. rewrite Hex1 in Hr.
+  destruct (c_dg c && (k =? 0) && ex) eqn:Ecase; [|injection Hr as <-; exact H0].
+  injection Hr as <-. cbn [panic_res s_nx s_st s_evs drops flat_map app].
+  apply andb_prop in Ecase. destruct Ecase as [_ Hext]. specialize (Hex2 Hext).
+  pose proof (vis_get_any st v) as Hv. rewrite Hg in Hv. cbn [slot_xs] in Hv. fold xs in Hv.
+  pose proof (vis_set_any st v (Some (with_xs a (firstn i xs)))) as H1. cbn [slot_xs with_xs a_xs] in H1.
+  assert (Hx : Permutation xs (firstn i xs ++ nth i xs 0 :: skipn (S i) xs)).
+  { rewrite <- (firstn_skipn i xs) at 1. rewrite (skipn_nth_cons 0 xs i Hex2). reflexivity. }
+  perm_count.
+Qed.
+
+Theorem step_own_f st nx fuse o r D L :
+  1 <= nx -> spec_step_f c st nx fuse o = Some r ->
+  Permutation (created c nx) (vis st ++ D ++ L) ->
+  Permutation (created c (s_nx r)) (vis (s_st r) ++ (D ++ drops (s_evs r)) ++ (L ++ leak_of_f c st nx fuse o)).
+Proof.
+  intros Hnx Hr Hinv. destruct fuse as [k|]; cbn [spec_step_f leak_of_f] in *.
+  2:{ exact (step_own st nx o r D L Hnx Hr Hinv). }
+  destruct o; try discriminate.
+  - destruct k0; try discriminate. exact (take_drop_own_f st nx v TPop 0 k r D L (fun _ => eq_refl) Hnx Hr Hinv).
+  - destruct k0; try discriminate. exact (take_drop_own_f st nx v TRemove idx k r D L ltac:(discriminate) Hnx Hr Hinv).
+  - destruct k0; try discriminate. exact (take_drop_own_f st nx v TSwapRemove idx k r D L ltac:(discriminate) Hnx Hr Hinv).
+  - (* OClear *)
+    unfold sp_clear_f in Hr. destruct (get_a v st) as [av|] eqn:Hg; [|discriminate]. cbv zeta in Hr.
+    pose proof (vis_get_any st v) as Hv. rewrite Hg in Hv. cbn [slot_xs] in Hv.
+    pose proof (vis_set_any st v (Some (with_xs av []))) as H1. cbn [slot_xs with_xs a_xs app] in H1.
+    assert (Hx : Permutation (a_xs av) (firstn (S (N.to_nat k)) (a_xs av) ++ skipn (S (N.to_nat k)) (a_xs av)))
+      by (rewrite firstn_skipn; reflexivity).
+    set (fk := firstn (S (N.to_nat k)) (a_xs av)) in *. set (tl := skipn (S (N.to_nat k)) (a_xs av)) in *.
+    rewrite Hdg in *. cbn [andb] in *.
+    destruct (k <? N.of_nat (length (a_xs av))); injection Hr as <-; cbn [ok_res panic_res s_nx s_st s_evs]; rewrite drops_map;
+      perm_count.
+Qed.
 End StepOwn.
 
 (** ** Whole histories *)
@@ -896,4 +990,45 @@ Proof.
   cbn [app] in H. split; [exact H|]. rewrite <- (Permutation_length H). unfold created.
   generalize (N.to_nat (snd (end_of [] 1 rs) - 1)) as n. generalize 1 as from.
   intros from n. revert from. induction n as [|n IH]; intros from; cbn [ids length]; [reflexivity|]. f_equal. apply IH.
+Qed.
+
+(** ** whole histories whose steps may carry a fuse *)
+Definition end_of_f := end_of.
+Fixpoint hist_leaks_f (c : cfg) (st : astate) (nx : N) (ops : list (option N * op)) : list N :=
+  match ops with
+  | [] => []
+  | (f, o) :: r => match spec_step_f c st nx f o with
+                   | Some x => leak_of_f c st nx f o ++ hist_leaks_f c (s_st x) (s_nx x) r
+                   | None => []
+                   end
+  end.
+Lemma spec_f_nx_mono c st nx f o r : spec_step_f c st nx f o = Some r -> nx <= s_nx r.
+Proof.
+  destruct f as [k|]; [|apply spec_nx_mono]. intros H. exact (proj1 (WorldFused.spec_f_small _ _ _ _ _ _ H)).
+Qed.
+Theorem history_own_f c ops : forall st nx rs D L,
+  c_dg c = true -> 1 <= nx -> spec_run_f c st nx ops = Some rs ->
+  Permutation (created c nx) (vis st ++ D ++ L) ->
+  Permutation (created c (snd (end_of st nx rs)))
+              (vis (fst (end_of st nx rs)) ++ (D ++ hist_drops rs) ++ (L ++ hist_leaks_f c st nx ops)).
+Proof.
+  induction ops as [|[f o] ops IH]; intros st nx rs D L Hdg Hnx Hs Hinv; cbn [spec_run_f hist_leaks_f] in *.
+  - injection Hs as <-. unfold end_of, hist_drops. cbn [fold_left flat_map fst snd]. rewrite !app_nil_r. exact Hinv.
+  - destruct (spec_step_f c st nx f o) as [x|] eqn:Ex; [|discriminate].
+    destruct (spec_run_f c (s_st x) (s_nx x) ops) as [l|] eqn:El; [|discriminate]. injection Hs as <-.
+    pose proof (step_own_f c Hdg st nx f o x D L Hnx Ex Hinv) as H1.
+    pose proof (spec_f_nx_mono _ _ _ _ _ _ Ex) as Hm.
+    specialize (IH (s_st x) (s_nx x) l (D ++ drops (s_evs x)) (L ++ leak_of_f c st nx f o) Hdg ltac:(lia) El H1).
+    unfold end_of in *. cbn [fold_left]. unfold hist_drops in *. cbn [flat_map].
+    rewrite !app_assoc in *. exact IH.
+Qed.
+(** ... so, also when destructors panic at arbitrary points of a history: nothing is destroyed twice, nothing
+    destroyed or leaked is still visible, nothing is visible in two places (C06, C03) *)
+Corollary history_exactly_once_f c ops rs :
+  c_dg c = true -> c_sz c <> 0 -> spec_run_f c [] 1 ops = Some rs ->
+  NoDup (vis (fst (end_of [] 1 rs)) ++ hist_drops rs ++ hist_leaks_f c [] 1 ops).
+Proof.
+  intros Hdg Hz Hs. eapply Permutation_NoDup.
+  - apply (history_own_f c ops [] 1 rs [] [] Hdg ltac:(lia) Hs). reflexivity.
+  - apply ids_nodup. exact Hz.
 Qed.
